@@ -67,6 +67,22 @@ def oracle(A, B, tol=1e-7):
     r = rmsd_points(A.copy(), B.copy())
     if abs(r * r * len(A) - best) > tol * scale:
         bad.append("rmsd_points %.9g != optimal rmsd %.9g" % (r, math.sqrt(best / len(A))))
+    # the same point sets held in other array types (integer coordinates as integer arrays, float32): the aligned set and the
+    # deviation are those of the real-number computation
+    for tag, conv, tol2 in (("float32", lambda X: X.astype(np.float32), 1e-4), ("int64", lambda X: X.astype(np.int64), 1e-9)):
+        if tag == "int64" and not (np.allclose(A, np.round(A)) and np.allclose(B, np.round(B))):
+            continue
+        Ac, Bc = conv(A), conv(B)
+        try:
+            A3 = np.asarray(reorient_points(Ac.copy(), Bc.copy()), float)
+            r3 = float(rmsd_points(Ac.copy(), Bc.copy()))
+        except Exception as e:
+            bad.append("%s arrays: %s: %s" % (tag, type(e).__name__, e))
+            continue
+        if not np.allclose(A3, A @ R, rtol=0, atol=tol2 * scale + 1e-9):
+            bad.append("reorient_points on %s arrays != A.R (max deviation %.3g)" % (tag, np.abs(A3 - A @ R).max()))
+        if abs(r3 * r3 * len(A) - best) > max(tol, tol2) * scale:
+            bad.append("rmsd_points on %s arrays %.6g != optimal rmsd %.6g" % (tag, r3, math.sqrt(best / len(A))))
     return bad
 
 
@@ -148,6 +164,19 @@ def run(ctx):
     ctx.fidelity_check("shimmed num.py == real on concrete points",
                        np.allclose(m.kabsch_rotation_matrix(A0.copy(), B0.copy()), realnum.kabsch_rotation_matrix(A0.copy(), B0.copy())))
     ctx.concrete_note("oracle accepts real code on random points", not oracle(A0, B0), str(oracle(A0, B0)))
+    # the symbolic arrays below carry no machine type: ground instances with integer coordinates (held as float64, int64 and
+    # float32 arrays) of congruent and non-congruent sets
+    Ai = np.array([[0, 0, 0], [3, 0, 0], [0, 2, 0], [0, 0, 5], [1, 4, 2], [-2, 1, 3]], float)
+    Rz = np.array([[0, 1, 0], [-1, 0, 0], [0, 0, 1]], float)
+    bad_t = None
+    for Bi in (Ai @ Rz + np.array([4, -7, 2.0]), Ai[::-1].copy(), Ai @ Rz @ Rz):
+        b_ = oracle(Ai - Ai.mean(axis=0).round(), Bi - Bi.mean(axis=0).round())
+        if b_ and bad_t is None:
+            bad_t = ((Ai - Ai.mean(axis=0).round()).tolist(), (Bi - Bi.mean(axis=0).round()).tolist(), b_[0])
+    ctx.record("point sets with integer coordinates held as float64, int64 and float32 arrays: same alignment and deviation (ground instances)",
+               "holds" if bad_t is None else "counterexample", nontrivial=True, method="ground instances")
+    if bad_t:
+        ctx.violation("pts:types", "alignment depends on the array type of the point sets: %s" % bad_t[2], {"A": bad_t[0], "B": bad_t[1]}, replay_points)
 
     # ---------------- symbolic run of kabsch_rotation_matrix
     V, W = _mat("v"), _mat("w")
